@@ -842,3 +842,31 @@ Lemma ex_sibling_name_prefix :
   let f := raw_of_path [[119; 115]; [112; 114; 111; 106; 45; 100; 111; 99; 115]; [120]] in
   forall E, in_wd E proj f = match canon E f with Some q => prefixb (workdir proj) q | None => false end.
 Proof. intros proj f E. unfold in_wd. destruct (canon E f); reflexivity. Qed.
+
+(* ================================================================= the all-foreign guard covers both kinds of report *)
+Lemma guard_fields_fact : foreign_guard_fields = [s_will; s_edited].
+Proof. reflexivity. Qed.
+
+Definition w_payload_ai (rwd : str) (files : list str) : json :=
+  JObj [(v1_tag, JStr s_ai_agent); (s_rwd, JStr rwd); (s_edited, JArr (map JStr files));
+        ([116; 114; 97; 110; 115; 99; 114; 105; 112; 116], JObj [([109; 101; 115; 115; 97; 103; 101; 115], JArr [])]);
+        ([97; 103; 101; 110; 116; 95; 110; 97; 109; 101], JStr [116]); (k_model, JStr [109]);
+        ([99; 111; 110; 118; 101; 114; 115; 97; 116; 105; 111; 110; 95; 105; 100], JStr [99])].
+
+(* a pre-edit (Human, will_edit_filepaths) and a post-edit (AiAgent, edited_filepaths) report whose only file belongs to
+   the sibling repository: the repository of repo_working_dir gets a pass that records and scans nothing *)
+Lemma foreign_request_both_kinds :
+  let E := w_env (Some (r_root w_outer)) in
+  (exists st ps, handle_checkpoint E PAgentV1 (HText (Some (w_payload s_ws_o [s_abs_s_x]))) = Exit st ps /\
+                 In (mkPass w_outer ScopeNone false) ps /\ has_scope_all (Exit st ps) = false /\
+                 records E (Exit st ps) = [(w_sib, q_s_x)]) /\
+  (exists rn, decode_agent_v1 (w_payload_ai s_ws_o [s_abs_s_x]) = DOk rn /\ rn_kind rn = AiAgent) /\
+  (exists st ps, handle_checkpoint E PAgentV1 (HText (Some (w_payload_ai s_ws_o [s_abs_s_x]))) = Exit st ps /\
+                 In (mkPass w_outer ScopeNone false) ps /\ has_scope_all (Exit st ps) = false /\
+                 records E (Exit st ps) = [(w_sib, q_s_x)]).
+Proof.
+  split; [| split].
+  - eexists. eexists. split; [vm_compute; reflexivity |]. split; [now left | split; reflexivity].
+  - eexists. split; [vm_compute; reflexivity | reflexivity].
+  - eexists. eexists. split; [vm_compute; reflexivity |]. split; [now left | split; reflexivity].
+Qed.
